@@ -137,7 +137,11 @@ func c42Material_() *c42Material {
 				panic(fmt.Sprintf("c42 mint %s: %v", id, err))
 			}
 			p, _ := c.MarshalPEM()
-			cc := &c42Cert{id: id, version: v, key: key, curve: k.curve, nets: vParsePrefixes(nets), expired: expired, crt: c, pem: string(p), sig: string(c.Signature())}
+			// networks as the certificate itself lists them (v2 certificates sort their networks when signed)
+			cc := &c42Cert{id: id, version: v, key: key, curve: k.curve, nets: c.Networks(), expired: expired, crt: c, pem: string(p), sig: string(c.Signature())}
+			if other := mt.bySig[cc.sig]; other != nil {
+				panic(fmt.Sprintf("c42 mint: %s and %s are the same certificate", id, other.id))
+			}
 			mt.certs[id] = cc
 			mt.bySig[cc.sig] = cc
 		}
@@ -147,12 +151,12 @@ func c42Material_() *c42Material {
 		mint("v1P", cert.Version1, "k1", c42Np, false, 0)
 		mint("v1NX", cert.Version1, "k1", c42N+","+c42X, false, 0)
 		mint("v1M", cert.Version1, "k1", c42Nm, false, 0)
+		mint("v1XN", cert.Version1, "k1", c42X+","+c42N, false, 0) // same set, other primary (v1 keeps the given order)
 		mint("v1Nexp", cert.Version1, "k1", c42N, true, 0)
 		mint("v2N", cert.Version2, "k1", c42N, false, 0)
 		mint("v2N'", cert.Version2, "k1", c42N, false, time.Hour)
 		mint("v2P", cert.Version2, "k1", c42Np, false, 0)
 		mint("v2NX", cert.Version2, "k1", c42N+","+c42X, false, 0)
-		mint("v2XN", cert.Version2, "k1", c42X+","+c42N, false, 0) // same set, other primary
 		mint("v2M", cert.Version2, "k1", c42Nm, false, 0)
 		mint("v2Nexp", cert.Version2, "k1", c42N, true, 0)
 		// k2: another 25519 key pair; k3: a P256 key pair
@@ -215,8 +219,8 @@ func (mt *c42Material) alphabets(thorough bool) (bundles []c42Bundle, keys []str
 	v1s := []string{"v1N", "v1N'", "v1P", "v1NX", "v1N/k2", "v1N/p256"}
 	v2s := []string{"v2N", "v2N'", "v2P", "v2NX", "v2N/k2", "v2N/p256"}
 	if thorough {
-		v1s = append(v1s, "v1M", "v1Nexp")
-		v2s = append(v2s, "v2XN", "v2M", "v2Nexp")
+		v1s = append(v1s, "v1M", "v1XN", "v1Nexp")
+		v2s = append(v2s, "v2M", "v2Nexp")
 	}
 	for _, a := range v1s {
 		bundles = append(bundles, mt.bundle(a))
@@ -302,6 +306,8 @@ type c42World struct {
 }
 
 var c42YamlCache sync.Map
+var c42InfoMu sync.Mutex
+var c42Info []string
 
 func c42Yaml(mt *c42Material, certRaw, keyRaw string, ca *c42CA, ck string) string {
 	if v, ok := c42YamlCache.Load(ck); ok {
@@ -553,11 +559,27 @@ func (w *c42World) step(tb testing.TB, c *mc.Check, al *c42Alpha, ev c42Ev, hist
 		c.Add("reloads_accepted", 1)
 		c.Distinct("accepted_transitions", kind)
 		if why := c42IdentityChange(before, after); why != "" {
-			c.Violation(fmt.Sprintf("reload accepted although %s (%s)", why, kind), det())
+			// signature = what changes + which kind of transition; the precise reason is in the detail
+			what, k := "the node's overlay networks change", kind
+			if strings.Contains(why, "curve") {
+				what = "the node's curve changes"
+				if (before.v1 == nil || after.v1 == nil) && (before.v2 == nil || after.v2 == nil) {
+					k = "certificate version switch"
+				}
+			} else if strings.Contains(why, "no certificate") {
+				what = why
+			}
+			d := det().(m)
+			d["why"] = why
+			c.Violation(fmt.Sprintf("reload accepted although %s (%s)", what, k), d)
 		} else if !slices.Equal(before.effective(), after.effective()) {
 			// ◊ a version added next to / replacing another with a superset or different secondary networks, primary unchanged
 			c.Add("info_secondary_networks_changed_by_design", 1)
-			c.Distinct("info_secondary_network_changes", fmt.Sprintf("%s: %v -> %v", kind, before.effective(), after.effective()))
+			if c.Distinct("info_secondary_network_changes", fmt.Sprintf("%s: %v -> %v", kind, before.effective(), after.effective())) {
+				c42InfoMu.Lock()
+				c42Info = append(c42Info, fmt.Sprintf("%s: %v -> %v", kind, before.effective(), after.effective()))
+				c42InfoMu.Unlock()
+			}
 		}
 	} else {
 		c.Add("reloads_refused", 1)
@@ -678,7 +700,6 @@ func TestVerifC42(t *testing.T) {
 	c.Set("alphabet_cert_bundles", len(al.bundles))
 	c.Set("alphabet_keys", len(al.keys))
 	c.Set("alphabet_ca_configs", len(al.cas))
-	c.Set("events_per_state", len(al.bundles)*len(al.keys)*len(al.cas))
 	c.Set("initial_states", len(c42Inits))
 	c.Set("history_depth", depth)
 	c.Assume("◊ Adding or substituting a certificate version whose non-primary networks differ (v1 10.0.0.1/24 -> v1 + v2 with an extra network, or v1-only -> v2-only with a superset) is the designed v2 upgrade path (newCertState pins only the primary network): counted as information (info_secondary_networks_changed_by_design), not a violation. Dropping a network or changing the primary one is a violation.")
@@ -691,13 +712,20 @@ func TestVerifC42(t *testing.T) {
 		root = append(root, c42Ev{B: -1, K: i})
 	}
 	var menu []c42Ev
+	crossBundles := map[string]bool{"v1N": true, "v2N": true, "v1N+v2N": true, "v2P": true, "garbage": true}
 	for b := range al.bundles {
 		for k := range al.keys {
 			for ca := range al.cas {
-				menu = append(menu, c42Ev{b, k, ca})
+				// thorough: the full product. quick: every (bundle, key) with the good CA configuration, and every CA
+				// configuration with the own key and five representative bundles (accepted, refused and unreadable ones) —
+				// the certificate and CA halves of PKI.reload are independent code paths.
+				if c.Thorough() || al.cas[ca] == "good" || (al.keys[k] == "k1" && crossBundles[al.bundles[b].id]) {
+					menu = append(menu, c42Ev{b, k, ca})
+				}
 			}
 		}
 	}
+	c.Set("events_per_state", len(menu))
 	label := func(e c42Ev) string {
 		if e.B < 0 {
 			return "init:" + c42Inits[e.K].name
@@ -735,6 +763,8 @@ func TestVerifC42(t *testing.T) {
 	}
 	res := mc.BFSReplay(c, mc.BFSConfig[c42Ev]{MaxDepth: depth + 1, Run: run, Label: label, Stop: stop})
 	c.Set("bfs", fmt.Sprintf("states=%d transitions=%d depth=%d(+1 for the initial-state choice) closure_reached=%v", res.States, res.Transitions, res.MaxDepth-1, res.Exhaustive))
+	sort.Strings(c42Info)
+	c.Set("info_secondary_network_change_kinds", c42Info)
 	c.Set("distinct_outcomes", c.DistinctCount("accepted_transitions")+c.DistinctCount("identity_change_kinds_refused"))
 
 	// vacuity guards
